@@ -11,7 +11,7 @@ from fjverif.common import case_hash, rng_for
 PROPERTY = 'C01'
 LEVEL = 'exploration'
 NATIVE_VARIANT = 'opt'
-GEOMS = ['compact', 'gaps', 'w8', 'top', 'page-edge', 'window-cut', 'many', 'far', 'magic']
+GEOMS = ['compact', 'gaps', 'w8', 'top', 'page-edge', 'window-cut', 'many', 'far', 'magic', 'many-pages']
 REQUIRED_FEATURES = ['unaligned-op', 'self-flip-jumpword', 'self-flip-flipword', 'input', 'input-unaligned', 'output',
                      'fault@flip-fetch', 'fault@flip', 'fault@jump-fetch', 'selfloop-with-selfflip', 'lazy-zero-read']
 
@@ -49,6 +49,10 @@ def run_shard(spec: Dict[str, Any], journal: Any) -> Dict[str, Any]:
         if index == 5 and spec['shard'] % 4 == 0:
             # one long straight-line program per few shards: crosses the native engine's signal-poll cadence (2^18 ops)
             case = imagegen.long_chain_case(rng, (16, 32, 64)[spec['shard'] // 4 % 3] if spec['shard'] // 4 % 3 else 32, 270000)
+        elif index % 25 == 11:
+            # many distinct 2^14-word pages, most of them beyond the flat window: the native engine's page table grows while the
+            # image loads, and the walk comes back to every page
+            case = imagegen.page_walk_case(rng, rng.choice([32, 64]), rng.choice([20, 33, 40, 70, 130, 300]), rng.choice([2, 3]))
         else:
             case = imagegen.generate_case(rng, geom, width, max_ops=max_ops)
         configs = enginecmp.c01_configs(rng, case)
